@@ -3,7 +3,7 @@ import itertools
 import zlib
 import numpy as np
 from harness import coqio as Q
-from harness.impl import coded_cube, decode, exc_name, family_wcs, lin_offsets, wcs_lockstep_fail, FAMILIES
+from harness.impl import poke, coded_cube, decode, exc_name, family_wcs, lin_offsets, wcs_lockstep_fail, FAMILIES
 
 CORR = "C01_corr"
 MODEL_FILES = ["Model/M_Slicing.v", "Base/PyIndex.v"]
@@ -154,6 +154,7 @@ def build_cube(case):
 
 def run(case):
     cube, data = build_cube(case)
+    poke(cube, case["key"])
     nd = data.ndim
     items = Q.np_ints(case["key"], Q.dec_items(case["items"]))
     item = items[0] if case["bare"] and len(items) == 1 else items
